@@ -66,11 +66,15 @@ Definition with_page (lo : lopts) (n k : Z) : lopts :=
      lo_filter := lo_filter lo; lo_offset := k |}.
 Definition unpaged (lo : lopts) : lopts := with_page lo 0 0.
 
+Lemma wrap64_small : forall z, -9223372036854775808 <= z < 9223372036854775808 -> wrap64 z = z.
+Proof. intros z H. unfold wrap64. rewrite Z.mod_small by lia. lia. Qed.
+
 Lemma page_block : forall (A : Type) (lo : lopts) (n : Z) (k : nat) (l : list A), 0 < n ->
+  n * Z.of_nat k < 9223372036854775808 ->
   page (with_page lo n (Z.of_nat k)) l = firstn (Z.to_nat n) (skipn (Z.to_nat n * k) l).
 Proof.
-  intros A lo n k l Hn. rewrite page_is_spec_page. unfold spec_page, with_page. cbn [lo_max lo_offset].
-  destruct (Z.gtb_spec n 0); [|lia].
+  intros A lo n k l Hn Hb. rewrite page_is_spec_page. unfold spec_page, with_page. cbn [lo_max lo_offset].
+  destruct (Z.gtb_spec n 0); [|lia]. rewrite wrap64_small by lia.
   replace (Z.to_nat (n * Z.of_nat k)) with (Z.to_nat n * k)%nat by lia. reflexivity.
 Qed.
 
